@@ -27,7 +27,9 @@ MANIFEST = dict(
          "path) and never writes the argument, and that inplace=True returns the argument itself on every path; (2)-(6) the parsed "
          "functions (and the private helpers they call) are evaluated on a finite model of dtype / ndarray objects (declared order "
          "character per field, sub-array and structured dtypes, a buffer that records how often it was swapped) for every declared "
-         "order spelling x host order x field layout x option flags: (2) byteswap swaps the bytes once, in the caller's buffer "
+         "order spelling x host order x field layout x option flags x element-count class (no empty axis / empty first axis / empty later "
+         "axis; the empty classes are evaluated when the code looks at size, nbytes, len() or shape, and then the result must still "
+         "declare the requested order unless the dtype is kept): (2) byteswap swaps the bytes once, in the caller's buffer "
          "exactly when inplace, and flips the dtype of the object holding them exactly when keep_dtype is off; (3) on structured "
          "arrays each converter leaves the data in the requested order wherever the first field with a byte order sits, string and "
          "one-byte fields being neither order and sub-array fields counting with the order of their items; (4) the endianness "
@@ -435,12 +437,122 @@ class MBuf:
         return self.origin if self.swaps % 2 == 0 else _other(self.origin)
 
 
+class MNat:
+    """an element count known only up to the class the property distinguishes: 0, or some number >= 1.  Comparisons with
+    integers are decided where every number of the class gives the same answer; everything else leaves the model."""
+
+    def __init__(self, zero):
+        self.zero = bool(zero)
+
+    def bounds(self):
+        return (0, 0) if self.zero else (1, None)
+
+    def __bool__(self):
+        return not self.zero
+
+    def __eq__(self, other):
+        return _nat_compare("eq", self, other)
+
+    def __ne__(self, other):
+        return not _nat_compare("eq", self, other)
+
+    __hash__ = object.__hash__
+
+    def __repr__(self):
+        return "<count: %s>" % ("0" if self.zero else "at least 1")
+
+
+def _nat_bounds(v):
+    if isinstance(v, MNat):
+        return v.bounds()
+    if isinstance(v, bool):
+        return (int(v), int(v))
+    if isinstance(v, int):
+        return (v, v)
+    if isinstance(v, float) and v == int(v):
+        return (int(v), int(v))
+    raise _Unrec("comparison of an element count with %r" % (v,))
+
+
+def _nat_compare(op, a, b):
+    """a <op> b for op in eq / lt / le over [low, high] bounds (high None = unbounded): the answer when it is the same for every
+    pair of numbers within the bounds"""
+    (al, ah), (bl, bh) = _nat_bounds(a), _nat_bounds(b)
+    lt_ = lambda x, y: x is not None and y is not None and x < y      # noqa: E731
+    le_ = lambda x, y: x is not None and y is not None and x <= y     # noqa: E731
+    if op == "eq":
+        if al == ah == bl == bh and al is not None:
+            return True
+        if lt_(ah, bl) or lt_(bh, al):
+            return False
+    elif op == "lt":
+        if lt_(ah, bl):
+            return True
+        if le_(bh, al):
+            return False
+    elif op == "le":
+        if le_(ah, bl):
+            return True
+        if lt_(bh, al):
+            return False
+    raise _Unrec("comparison of an element count (%r) with %r is not the same for every array" % (a, b))
+
+
+COUNTS = ("pos", "zero-first", "zero-later")
+_COUNT_TEXT = {"pos": "", "zero-first": " with no elements (shape (0, ...))", "zero-later": " with no elements (shape (n, 0))"}
+
+
+class MCount:
+    """how many elements an array has, as one of the classes the byte-order code can tell apart: 'pos' every axis has a
+    positive length (0-d included), 'zero-first' the first axis is empty, 'zero-later' a later axis is empty (the first is
+    not).  Shared by every array derived from one input (copies, views, field views have the same emptiness); `read` records
+    that the analysed code looked at it."""
+
+    def __init__(self, cls="pos"):
+        if cls not in COUNTS:
+            raise ValueError(cls)
+        self.cls = cls
+        self.read = False
+
+    def size(self):
+        self.read = True
+        return MNat(self.cls != "pos")
+
+    def first(self):
+        """length of the first axis: len(array), array.shape[0]"""
+        self.read = True
+        if self.cls == "pos":
+            raise _Unrec("length of the first axis of an array that may be 0-d")
+        return MNat(self.cls == "zero-first")
+
+
+class MShape:
+    """array.shape: its first entry and whether 0 is among its entries"""
+
+    def __init__(self, count):
+        self.count = count
+
+    def item(self, idx):
+        if isinstance(idx, int) and not isinstance(idx, bool) and idx == 0:
+            return self.count.first()
+        self.count.read = True
+        raise _Unrec("array.shape[%r]" % (idx,))
+
+    def has_zero(self):
+        self.count.read = True
+        return self.count.cls != "pos"
+
+
 class MArray:
-    def __init__(self, host, dtype, buf):
+    def __init__(self, host, dtype, buf, count=None):
         self.host = host
         self.dtype = dtype
         self.buf = buf
+        self.count = count if count is not None else MCount()
         self.dtype_sets = 0
+
+    def empty(self):
+        return self.count.cls != "pos"
 
     def __bool__(self):
         raise _Unrec("truth value of an array")
@@ -464,10 +576,10 @@ class MArray:
         if inplace:
             self.buf.swaps += 1
             return self
-        return MArray(self.host, self.dtype, MBuf(self.buf.origin, self.buf.swaps + 1))
+        return MArray(self.host, self.dtype, MBuf(self.buf.origin, self.buf.swaps + 1), self.count)
 
     def copy(self, order="C"):
-        return MArray(self.host, self.dtype, MBuf(self.buf.origin, self.buf.swaps))
+        return MArray(self.host, self.dtype, MBuf(self.buf.origin, self.buf.swaps), self.count)
 
     def view(self, *a, **k):
         args = list(a) + [k[x] for x in ("dtype", "type") if x in k]
@@ -483,7 +595,7 @@ class MArray:
                 pass
             else:
                 raise _Unrec("array.view(%r)" % (x,))
-        return MArray(self.host, dt, self.buf)
+        return MArray(self.host, dt, self.buf, self.count)
 
     def astype(self, dtype, **k):
         if not isinstance(dtype, MDtype) or set(k) - {"copy"} or k.get("copy", True) is not True:
@@ -496,14 +608,14 @@ class MArray:
         o = dtype.orders()
         if len(o) > 1:
             raise _Unrec("astype to a mixed-order dtype")
-        return MArray(self.host, dtype, MBuf(next(iter(o)) if o else self.buf.origin, 0))
+        return MArray(self.host, dtype, MBuf(next(iter(o)) if o else self.buf.origin, 0), self.count)
 
     def item(self, idx):
         if isinstance(idx, str):
             d = self.dtype.item(idx)
             if d.sub is not None:
                 d = d.sub[0]          # a field view dissolves the sub-array into extra dimensions
-            return MArray(self.host, d, self.buf)
+            return MArray(self.host, d, self.buf, self.count)
         raise _Unrec("array[%r]" % (idx,))
 
     def m_getattr(self, name):
@@ -511,6 +623,10 @@ class MArray:
             return self.dtype
         if name in ("byteswap", "copy", "view", "astype"):
             return _Fn(getattr(self, name), "ndarray." + name)
+        if name in ("size", "nbytes"):
+            return self.count.size()       # every item of the model has a positive item size
+        if name == "shape":
+            return MShape(self.count)
         raise _Unrec("ndarray.%s is not modelled" % name)
 
     def m_setattr(self, name, value):
@@ -580,6 +696,11 @@ class MNumpy:
             return x
         raise _Unrec("numpy.array(copy=%r)" % (copy,))
 
+    def _size(self, x, *a, **k):
+        if not isinstance(x, MArray) or a or k:
+            raise _Unrec("numpy.size(...) of this form")
+        return x.count.size()
+
     def m_getattr(self, name):
         if name == "little_endian":
             return self.host
@@ -593,6 +714,8 @@ class MNumpy:
             return _Fn(self._array, "numpy.array")
         if name == "asarray":
             return _Fn(lambda x, **k: self._array(x, copy=False, **k), "numpy.asarray")
+        if name == "size":
+            return _Fn(self._size, "numpy.size")
         raise _Unrec("numpy.%s is not modelled" % name)
 
 
@@ -795,7 +918,18 @@ def _truth(v):
         return bool(v)
     if isinstance(v, (MDtype, RFunc, RLambda, _Fn, MType, MModule)):
         return True
+    if isinstance(v, MNat):
+        return not v.zero
     raise _Unrec("truth value of %r" % (v,))
+
+
+def _len(v):
+    if isinstance(v, MArray):
+        return v.count.first()
+    if isinstance(v, MShape):
+        v.count.read = True
+        raise _Unrec("number of axes of an array")
+    return len(v)
 
 
 def _isinstance(v, t):
@@ -891,7 +1025,7 @@ class Interp:
         self.models = {"numpy": self.np, "copy": MCopy(), "sys": MSys(host_little), "functools": MFunctools()}
         self.handling = []
         self.builtins = {
-            "any": any, "all": all, "len": len, "range": range, "enumerate": enumerate, "zip": zip, "reversed": reversed,
+            "any": any, "all": all, "len": _len, "range": range, "enumerate": enumerate, "zip": zip, "reversed": reversed,
             "sorted": sorted, "min": min, "max": max, "sum": sum, "repr": repr, "abs": abs,
             "map": lambda f, *xs: list(map(f, *xs)), "filter": lambda f, xs: [x for x in xs if _truth(f(x) if f is not None else x)],
             "isinstance": _isinstance, "bool": _truth, "iter": iter, "next": next,
@@ -1259,7 +1393,7 @@ class Interp:
         if isinstance(e, ast.Subscript):
             o = self.ev(e.value, env, fi)
             i = self.index(e.slice, env, fi)
-            if isinstance(o, (MDtype, MArray)):
+            if isinstance(o, (MDtype, MArray, MShape)):
                 return o.item(i)
             if isinstance(o, (tuple, list, str, dict)):
                 if not _plain(i) and not isinstance(i, slice):
@@ -1436,6 +1570,24 @@ class Interp:
             return r if isinstance(o, ast.Is) else not r
         if isinstance(a, MArray) or isinstance(b, MArray):
             raise _Unrec("comparison of arrays")
+        if isinstance(b, MShape) and isinstance(o, (ast.In, ast.NotIn)):
+            if isinstance(a, bool) or not isinstance(a, int) or a != 0:
+                b.count.read = True
+                raise _Unrec("membership of %r in array.shape" % (a,))
+            return b.has_zero() if isinstance(o, ast.In) else not b.has_zero()
+        if isinstance(a, MShape) or isinstance(b, MShape):
+            for x in (a, b):
+                if isinstance(x, MShape):
+                    x.count.read = True
+            raise _Unrec("comparison of array.shape")
+        if (isinstance(a, MNat) or isinstance(b, MNat)) and isinstance(o, (ast.Lt, ast.LtE, ast.Gt, ast.GtE)):
+            if isinstance(o, ast.Lt):
+                return _nat_compare("lt", a, b)
+            if isinstance(o, ast.LtE):
+                return _nat_compare("le", a, b)
+            if isinstance(o, ast.Gt):
+                return _nat_compare("lt", b, a)
+            return _nat_compare("le", b, a)
         if isinstance(o, ast.Eq):
             return bool(a == b)
         if isinstance(o, ast.NotEq):
@@ -1545,9 +1697,9 @@ def mk_plain(host, order):
     return MDtype(host, order, "f8") if order != "|" else MDtype(host, "|", "S4")
 
 
-def mk_array(host, dtype):
+def mk_array(host, dtype, count="pos"):
     o = dtype.orders()
-    return MArray(host, dtype, MBuf(next(iter(o)) if o else "L"))
+    return MArray(host, dtype, MBuf(next(iter(o)) if o else "L"), MCount(count))
 
 
 class _Agg:
@@ -1601,12 +1753,29 @@ def _note_units(chk, repo):
             chk.analysed_unit(q)
 
 
-def _conv_case(repo, fi, host, dtype, inplace, keep, pass_flags=True):
+def _conv_case(repo, fi, host, dtype, inplace, keep, pass_flags=True, count="pos"):
     """evaluate converter fi on a fresh model array; -> (status, array, result, text)"""
-    a = mk_array(host, dtype)
+    a = mk_array(host, dtype, count)
     kw = {"inplace": inplace, "keep_dtype": keep} if pass_flags else {}
     st, r = _interp(repo, host).run(fi, [a], kw)
     return st, a, r
+
+
+def _conv_cases(repo, fi, host, dtype, inplace, keep, pass_flags=True):
+    """_conv_case for every element-count class the analysed code tells apart: an array all of whose axes are non-empty, and --
+    when the evaluation on that one looked at the element count (size, nbytes, len(), shape) -- arrays without elements too.
+    Code that never looks at the count does the same on all of them.  -> (count class, status, array, result)"""
+    st, a, r = _conv_case(repo, fi, host, dtype, inplace, keep, pass_flags)
+    yield "pos", st, a, r
+    if a.count.read:
+        for c in COUNTS[1:]:
+            st, a, r = _conv_case(repo, fi, host, dtype, inplace, keep, pass_flags, c)
+            yield c, st, a, r
+
+
+def _declares(arr, target):
+    """every field with a byte order is declared in the target order"""
+    return not (arr.dtype.orders() - {target})
 
 
 def r16_2(chk, repo):
@@ -1621,31 +1790,39 @@ def r16_2(chk, repo):
         for d0 in dts:
             for inplace in (False, True):
                 for keep in (False, True):
-                    what = "byteswap(<array of %r>, inplace=%s, keep_dtype=%s) on a %s-endian host" % (d0, inplace, keep, _hostname(host))
-                    st, a, r = _conv_case(repo, fi, host, d0, inplace, keep)
-                    if st == "unrec":
-                        for k in keys:
-                            agg[k].add(None, "%s: %s" % (what, r))
-                        continue
-                    if st == "raise" or not isinstance(r, MArray):
-                        for k in keys:
-                            agg[k].add(False, "%s: %s" % (what, "raises " + r if st == "raise" else "returns %r" % (r,)))
-                        continue
-                    flipped = d0.newbyteorder("S")
-                    if not keep:
-                        agg["dtype-flip-present"].add(r.dtype != d0, what + ": the result still declares %r" % (r.dtype,))
-                    agg["flip-iff-not-keep_dtype"].add((r.dtype == d0) == keep, what + ": result dtype %r" % (r.dtype,))
-                    if not keep:
-                        agg["flip-is-newbyteorder-of-own-dtype"].add(r.dtype == flipped, what + ": result dtype %r, wanted %r" % (r.dtype, flipped))
-                    ok = r.buf.swaps == 1 and (r.buf is a.buf) == inplace and a.buf.swaps == (1 if inplace else 0)
-                    agg["single-swap-with-inplace-flag"].add(ok, what + ": result bytes swapped %d time(s), caller's buffer %d time(s), result %s the caller's buffer"
-                                                             % (r.buf.swaps, a.buf.swaps, "shares" if r.buf is a.buf else "does not share"))
-                    if not keep:
-                        ok = r.consistent() and (not inplace or a.consistent())
-                        agg["flip-applies-to-swap-result"].add(ok, what + ": %s" % ("the result" if not r.consistent() else "the caller's array")
-                                                               + " declares an order that is not the order of its bytes")
-                    else:
-                        agg["flip-applies-to-swap-result"].add(a.dtype == d0, what + ": the caller's dtype was changed")
+                    for cnt, st, a, r in _conv_cases(repo, fi, host, d0, inplace, keep):
+                        what = "byteswap(<array of %r>%s, inplace=%s, keep_dtype=%s) on a %s-endian host" % (d0, _COUNT_TEXT[cnt], inplace, keep, _hostname(host))
+                        if st == "unrec":
+                            for k in keys:
+                                agg[k].add(None, "%s: %s" % (what, r))
+                            continue
+                        if st == "raise" or not isinstance(r, MArray):
+                            for k in keys:
+                                agg[k].add(False, "%s: %s" % (what, "raises " + r if st == "raise" else "returns %r" % (r,)))
+                            continue
+                        flipped = d0.newbyteorder("S")
+                        if not keep:
+                            agg["dtype-flip-present"].add(r.dtype != d0, what + ": the result still declares %r" % (r.dtype,))
+                        agg["flip-iff-not-keep_dtype"].add((r.dtype == d0) == keep, what + ": result dtype %r" % (r.dtype,))
+                        if not keep:
+                            agg["flip-is-newbyteorder-of-own-dtype"].add(r.dtype == flipped, what + ": result dtype %r, wanted %r" % (r.dtype, flipped))
+                        if cnt != "pos":
+                            # nothing to swap in an array without elements: what remains is whose buffer the result has and what
+                            # the result (and, in place, the caller's array) declares
+                            agg["single-swap-with-inplace-flag"].add((r.buf is a.buf) == inplace, what + ": the result %s the caller's buffer"
+                                                                     % ("shares" if r.buf is a.buf else "does not share"))
+                            ok = a.dtype == (d0 if keep or not inplace else flipped)
+                            agg["flip-applies-to-swap-result"].add(ok, what + ": the caller's array now declares %r" % (a.dtype,))
+                            continue
+                        ok = r.buf.swaps == 1 and (r.buf is a.buf) == inplace and a.buf.swaps == (1 if inplace else 0)
+                        agg["single-swap-with-inplace-flag"].add(ok, what + ": result bytes swapped %d time(s), caller's buffer %d time(s), result %s the caller's buffer"
+                                                                 % (r.buf.swaps, a.buf.swaps, "shares" if r.buf is a.buf else "does not share"))
+                        if not keep:
+                            ok = r.consistent() and (not inplace or a.consistent())
+                            agg["flip-applies-to-swap-result"].add(ok, what + ": %s" % ("the result" if not r.consistent() else "the caller's array")
+                                                                   + " declares an order that is not the order of its bytes")
+                        else:
+                            agg["flip-applies-to-swap-result"].add(a.dtype == d0, what + ": the caller's dtype was changed")
     w = fi.where()
     _emit(chk, "R16.2", "byteswap::dtype-flip-present", agg["dtype-flip-present"], w, "with keep_dtype off the result declares another order than the input")
     _emit(chk, "R16.2", "byteswap::flip-iff-not-keep_dtype", agg["flip-iff-not-keep_dtype"], w, "the dtype is flipped exactly when keep_dtype is off")
@@ -1677,20 +1854,29 @@ def _decision_cases(chk, repo, fi, target_of, run_one, layouts, orders=ORDERS):
 
 
 def _bytes_in_target(repo, fi, combos, pass_flags=True):
-    """run_one for a converter: after the call the bytes of the result are in the target order, whatever the option flags"""
+    """run_one for a converter: after the call the bytes of the result are in the target order, whatever the option flags, and
+    unless the dtype is kept the result declares the target order -- which is all there is to see of the conversion of an array
+    without elements.  A contradiction on one input is the verdict even if the evaluation left the model on another."""
     def run_one(host, d0, target):
+        unrec = None
         for inplace, keep in combos:
-            st, a, r = _conv_case(repo, fi, host, d0, inplace, keep, pass_flags)
-            res = r if pass_flags else a
-            what = "%s(<array of %r>%s) on a %s-endian host" % (fi.name, d0, ", inplace=%s, keep_dtype=%s" % (inplace, keep) if pass_flags else "", _hostname(host))
-            if st == "unrec":
-                return None, "%s: %s" % (what, r)
-            if st == "raise":
-                return False, "%s raises %s" % (what, r)
-            if not isinstance(res, MArray):
-                return False, "%s returns %r" % (what, res)
-            if res.buf.order() != target:
-                return False, "%s leaves the data %s-endian" % (what, "big" if res.buf.order() == "B" else "little")
+            for cnt, st, a, r in _conv_cases(repo, fi, host, d0, inplace, keep, pass_flags):
+                res = r if pass_flags else a
+                what = "%s(<array of %r>%s%s) on a %s-endian host" % (fi.name, d0, _COUNT_TEXT[cnt], ", inplace=%s, keep_dtype=%s" % (inplace, keep) if pass_flags else "",
+                                                                      _hostname(host))
+                if st == "unrec":
+                    unrec = unrec or "%s: %s" % (what, r)
+                    continue
+                if st == "raise":
+                    return False, "%s raises %s" % (what, r)
+                if not isinstance(res, MArray):
+                    return False, "%s returns %r" % (what, res)
+                if cnt == "pos" and res.buf.order() != target:
+                    return False, "%s leaves the data %s-endian" % (what, "big" if res.buf.order() == "B" else "little")
+                if not keep and not _declares(res, target):
+                    return False, "%s returns an array whose dtype %r does not declare the requested (%s-endian) order" % (what, res.dtype, "big" if target == "B" else "little")
+        if unrec is not None:
+            return None, unrec
         return True, ""
     return run_one
 
@@ -1743,15 +1929,15 @@ def _forwarding_by_model(chk, repo, name):
                 continue
             for inplace, keep in COMBOS:
                 d0 = mk_plain(host, order)
-                st, a, r = _conv_case(repo, fi, host, d0, inplace, keep)
-                what = "%s(<array of %r>, inplace=%s, keep_dtype=%s) on a %s-endian host" % (name, d0, inplace, keep, _hostname(host))
-                if st == "unrec":
-                    agg.add(None, "%s: %s" % (what, r))
-                elif st == "raise" or not isinstance(r, MArray):
-                    agg.add(False, what + (" raises " + r if st == "raise" else " returns %r" % (r,)))
-                else:
-                    agg.add((r.buf is a.buf) == inplace and (r.dtype == d0) == keep, what + ": result dtype %r, %s the caller's buffer"
-                            % (r.dtype, "in" if r.buf is a.buf else "not in"))
+                for cnt, st, a, r in _conv_cases(repo, fi, host, d0, inplace, keep):
+                    what = "%s(<array of %r>%s, inplace=%s, keep_dtype=%s) on a %s-endian host" % (name, d0, _COUNT_TEXT[cnt], inplace, keep, _hostname(host))
+                    if st == "unrec":
+                        agg.add(None, "%s: %s" % (what, r))
+                    elif st == "raise" or not isinstance(r, MArray):
+                        agg.add(False, what + (" raises " + r if st == "raise" else " returns %r" % (r,)))
+                    else:
+                        agg.add((r.buf is a.buf) == inplace and (r.dtype == d0) == keep, what + ": result dtype %r, %s the caller's buffer"
+                                % (r.dtype, "in" if r.buf is a.buf else "not in"))
     _emit(chk, "R16.1e", "%s::forwards-options" % name, agg, fi.where(), "%s forwards (array, inplace, keep_dtype) to the swap unchanged" % name)
 
 
@@ -1769,16 +1955,30 @@ def r16_4(chk, repo):
                 return ch == ">" or (ch == "=" and not host_little)
             return ch == "<" or (ch == "=" and host_little)
 
-        def evaluate(host, dt):
-            arg = mk_array(host, dt) if takes == "array" else dt
+        def evaluate1(host, dt, count):
+            arg = mk_array(host, dt, count) if takes == "array" else dt
             st, r = _interp(repo, host).run(fi, [arg])
+            read = takes == "array" and arg.count.read
             if st == "unrec":
-                return None, r
+                return None, r, read
             if st == "raise":
-                return "raises", r
+                return "raises", r, read
             if _plain(r) and not isinstance(r, (list, dict, set)):
-                return bool(r), repr(r)
-            return "other", repr(r)
+                return bool(r), repr(r), read
+            return "other", repr(r), read
+
+        def evaluate(host, dt):
+            """the predicate's answer; when it looks at the element count, the answer it gives on every class of arrays (the
+            declared order does not depend on how many elements there are): the first one that differs from the others"""
+            got, text, read = evaluate1(host, dt, "pos")
+            if read:
+                for c in COUNTS[1:]:
+                    g2, t2, _ = evaluate1(host, dt, c)
+                    if g2 is not None and (got is None or g2 != got):
+                        if got is not None:
+                            return "other", "%s, but %s on an array%s" % (text, t2, _COUNT_TEXT[c])
+                        got, text = g2, t2 + " on an array" + _COUNT_TEXT[c]
+            return got, text
 
         base = _Agg()
         for host in HOSTS:
@@ -1951,14 +2151,16 @@ def r16_6(chk, repo, rule="R16.6", only=None):
         for order in ORDERS:
             for lay in ("plain", "X", "NX", "VB"):
                 d0 = mk_dtype(host, lay, order) if lay != "plain" else mk_plain(host, order)
-                st, a, r = _conv_case(repo, fi, host, d0, True, False, False)
-                what = "to_native_inplace(<array of %r>) on a %s-endian host" % (d0, _hostname(host))
-                if st != "ok":
-                    agg.add(None if st == "unrec" else False, "%s: %s" % (what, r))
-                    continue
-                need = _resolve(order, host) != native(host)
-                ok = a.buf.swaps == (1 if need else 0) and a.consistent() and a.dtype == (d0.newbyteorder("S") if need else d0)
-                agg.add(ok, what + ": caller's buffer swapped %d time(s), dtype now %r" % (a.buf.swaps, a.dtype))
+                for cnt, st, a, r in _conv_cases(repo, fi, host, d0, True, False, False):
+                    what = "to_native_inplace(<array of %r>%s) on a %s-endian host" % (d0, _COUNT_TEXT[cnt], _hostname(host))
+                    if st != "ok":
+                        agg.add(None if st == "unrec" else False, "%s: %s" % (what, r))
+                        continue
+                    need = _resolve(order, host) != native(host)
+                    ok = a.dtype == (d0.newbyteorder("S") if need else d0)
+                    if cnt == "pos":
+                        ok = ok and a.buf.swaps == (1 if need else 0) and a.consistent()
+                    agg.add(ok, what + ": caller's buffer swapped %d time(s), dtype now %r" % (a.buf.swaps, a.dtype))
     _emit(chk, rule, fi.qualname + "::swap-and-flip-paired", agg, fi.where(),
           "the swap happens in the caller's buffer and the caller's dtype is flipped together with it (and neither when the data are native)")
     _note_units(chk, repo)
